@@ -38,12 +38,46 @@ func Area64(path Path64) float64 {
 		return 0
 	}
 
-	var a int64 = 0
+	// the shoelace terms reach 2^124 for coordinates up to MaxCoord: sum them in
+	// 128 bits (two's complement hi:lo) instead of letting int64 wrap around
+	var hi, lo uint64
 	prevPt := path[len(path)-1]
 	for _, pt := range path {
-		a += (prevPt.Y + pt.Y) * (prevPt.X - pt.X)
+		y, x := prevPt.Y+pt.Y, prevPt.X-pt.X
+		neg := (y < 0) != (x < 0)
+		if y < 0 {
+			y = -y
+		}
+		if x < 0 {
+			x = -x
+		}
+		t := multiplyUInt64(uint64(y), uint64(x))
+		if neg {
+			t.Lo64, t.Hi64 = ^t.Lo64+1, ^t.Hi64
+			if t.Lo64 == 0 {
+				t.Hi64++
+			}
+		}
+		sum := lo + t.Lo64
+		if sum < lo {
+			hi++
+		}
+		lo = sum
+		hi += t.Hi64
 		prevPt = pt
 	}
+	if (hi != 0 || lo > math.MaxInt64) && (hi != math.MaxUint64 || lo <= math.MaxInt64) {
+		// does not fit int64: round once to float64
+		if hi > math.MaxInt64 { // negative
+			lo, hi = ^lo+1, ^hi
+			if lo == 0 {
+				hi++
+			}
+			return -(float64(hi)*18446744073709551616.0 + float64(lo)) * 0.5
+		}
+		return (float64(hi)*18446744073709551616.0 + float64(lo)) * 0.5
+	}
+	a := int64(lo)
 
 	vA, _ := decimal.New(a, 0)
 	cV, _ := decimal.NewFromFloat64(0.5)
